@@ -59,6 +59,26 @@ def run_batching(tier, funcs, index, enums, res):
                                                                                        ["".join("-" + k for k, x in c.items() if x) or "(none)" for c in c04_batching.CONFIGS]))
 
 
+def run_startpoints(tier, funcs, index, enums, res):
+    import c18_startpoints
+    res["target"] = "do_find + parse_args (+ the real expression parser behind it) on symbolic command lines; process_dir is a recorder with symbolic status / quit"
+    plans = [(n, c18_startpoints.VOCAB) for n in ([1, 2, 3] if tier == "quick" else [1, 2, 3])]
+    if tier == "thorough":
+        plans.append((4, ["-H", "-L", "--", "a", "./b/", "-", "!", "(", "-print", "-quit"]))
+    for n, vocab in plans:
+        r = c18_startpoints.explore(n, funcs, index, enums, vocab=vocab)
+        res["functions_executed"].update(r.pop("functions_executed"))
+        for v in r.pop("violations"):
+            res["violations"].append({"key": v["what"].split(",")[0][:60], "summary": "%s: %s" % (" ".join(v["tokens"] or []), v["what"]), "replayer": "startpoints",
+                                      "tokens": v["tokens"], "what": v["what"]})
+        for k, c in r.pop("unsupported").items():
+            res["unsupported"][k] = res["unsupported"].get(k, 0) + c
+        r["bound"] = "%d tokens over %d words" % (n, len(vocab))
+        res["runs"].append(r)
+    res["bounds"] = "every command line of %s tokens over the vocabulary %s; per starting point a symbolic walk status (0..2) and a symbolic quit" % (
+        [n for n, _ in plans], c18_startpoints.VOCAB)
+
+
 def main():
     prop, tier, out = sys.argv[1], sys.argv[2], sys.argv[3]
     t0 = time.time()
@@ -69,6 +89,8 @@ def main():
         run_parser(tier, funcs, index, enums, res)
     elif prop in ("C04", "C19"):
         run_batching(tier, funcs, index, enums, res)
+    elif prop in ("C18", "C02"):
+        run_startpoints(tier, funcs, index, enums, res)
     else:
         raise SystemExit("no MIR-level check for " + prop)
     res["functions_executed"] = sorted(res["functions_executed"])
